@@ -93,6 +93,13 @@ def units_under(*reldirs, pattern=r"\.cxx$"):
     return res
 
 
+def unit_target(path):
+    """CMake target a unit is compiled for (from the object path of the compilation database)."""
+    e = compdb().get(os.path.normpath(path))
+    m = re.search(r"CMakeFiles/([^/]+)\.dir/", (e or {}).get("output", "") or (e or {}).get("command", ""))
+    return m.group(1) if m else None
+
+
 def _run_one(args):
     cmd, outfile, cwd = args
     p = subprocess.run(cmd, cwd=cwd, capture_output=True, text=True)
